@@ -120,7 +120,8 @@ pub struct Session {
     /// Entities visible to the client at the first tick at which it was authorised.
     pub initial: Option<BTreeSet<u64>>,
     /// Known finding F20, narrowed: (entity, kind) cells whose value may have been dropped.
-    /// Value: tick from which the cell is trustworthy again (u32::MAX while the dropped value is outstanding).
+    /// Value: version of the write that was dropped; the cell is trusted again once the client holds
+    /// that or a later write.
     pub f20_cells: BTreeMap<(u64, Kind), u32>,
 }
 
@@ -1176,7 +1177,12 @@ impl Sim {
                     for (e, comps) in &m.ents {
                         sess.f20_ents.insert(*e);
                         for r in comps {
-                            sess.f20_cells.insert((*e, r.kind), u32::MAX);
+                            let ver = match r.val {
+                                Val::Ver(v) | Val::Big(v, _) => v,
+                                Val::Ent(_) => u32::MAX,
+                            };
+                            let cur = sess.f20_cells.entry((*e, r.kind)).or_insert(0);
+                            *cur = (*cur).max(ver);
                         }
                     }
                 }
